@@ -307,7 +307,7 @@ func c10(c *Ctx) {
 		}(hi, h)
 	}
 	// ---------- (b2) TGT renewal / re-login during a history: short-lived TGTs, direct oracles only ----------
-	for vi := 0; vi < 4; vi++ {
+	for vi := 0; vi < 5; vi++ {
 		wg.Add(1)
 		go func(vi int) {
 			defer wg.Done()
@@ -350,6 +350,11 @@ func c10(c *Ctx) {
 			if vi >= 2 {
 				sleeps = []int{0, 4600, 300, 2100, 3900, 200}
 				order = []int{0, 1, 2, 0, 2, 1}
+			}
+			if vi == 4 {
+				// an idle client: two renewal points pass without any request, then a new SPN is asked for
+				sleeps = []int{0, 9000, 0}
+				order = []int{0, 1, 2}
 			}
 			for i := range sleeps {
 				time.Sleep(time.Duration(sleeps[i]) * time.Millisecond)
